@@ -53,11 +53,13 @@ structure Cfg where
   disk : Bool := true
   deriving DecidableEq, Repr
 
-/-- Ghost record of an acceptance: which document came into force where, against which candidate signers. -/
+/-- Ghost record of an acceptance: which document came into force where, against which candidate signers,
+under which signature mode (the mode configured at that intake). -/
 structure Accept where
   loc : Loc
   doc : DocA
   cands : List Signer
+  mode : SigMode
   deriving DecidableEq, Repr
 
 structure State where
@@ -124,7 +126,7 @@ def loadCRL (s : State) (loc : Loc) (e : Entry) (cands : List Signer) : State ×
   match stage s.cfg.sigMode firstLoadHonoursMode (servedAt s loc) cands with
   | .ok st d _ =>
     let e' := { e with store := st, loaded := true, chains := [] }
-    ({ setEntry s loc e' with log := s.log ++ [⟨loc, d, cands⟩] }, .ok)
+    ({ setEntry s loc e' with log := s.log ++ [⟨loc, d, cands, s.cfg.sigMode⟩] }, .ok)
   | _ => (s, .err)
 
 /-- Candidates of a refresh: the given chains, or else the persisted signer certificate (`getStoredCertAsChain`). -/
@@ -143,7 +145,7 @@ def updateCrlEntry (s : State) (loc : Loc) (e : Entry) (newCands : Option (List 
       let e' := { e with store := st, loaded := e.loaded || updateMarksLoaded,
                          sigFailed := if verified then false else (if s.cfg.sigMode == .none then e.sigFailed else true),
                          lastDoc := if verified then none else (if s.cfg.sigMode == .none then e.lastDoc else some d) }
-      ({ setEntry s loc e' with log := s.log ++ [⟨loc, d, cands⟩] }, .ok)
+      ({ setEntry s loc e' with log := s.log ++ [⟨loc, d, cands, s.cfg.sigMode⟩] }, .ok)
     | .sigFail d => (setEntry s loc { e with sigFailed := true, lastDoc := some d }, .err)
     | _ => (s, .err)
 
@@ -177,10 +179,12 @@ def addCRL (s : State) (loc : Loc) (cands : List Signer) : State × Bool × Outc
       (s3, added, o)
     else
       -- signature certificate retry after a refresh whose verification failed
-      let s4 := if e2.sigFailed then
+      let s4 := if e2.sigFailed && (e2.loaded || !retryOnlyWhenLoaded) then
           match e2.lastDoc with
           | some d => if verifies d cands then
-                setEntry s2 loc { e2 with sigFailed := false, store := { e2.store with signer := some d.signer } }
+                -- ghost: the later verification of `d` against the presented candidates is recorded
+                { setEntry s2 loc { e2 with sigFailed := false, store := { e2.store with signer := some d.signer } } with
+                  log := s2.log ++ [⟨loc, d, cands, s2.cfg.sigMode⟩] }
               else s2
           | none => s2
         else s2
